@@ -11,6 +11,9 @@ real code for a singular left block (known finding F11, `gaussian_reconstruct_co
 import OFV.Model.C11
 import OFV.Proofs.C11
 import OFV.Proofs.C11Num
+import OFV.Proofs.C11Real
+import OFV.Proofs.C11Double
+import OFV.Proofs.C11GaussGram
 import OFV.Proofs.C11Layers
 import OFV.Proofs.C11Step
 import OFV.Proofs.C11Sweep
@@ -364,6 +367,67 @@ example : (givensElems (1/100000000) 0 ⟨0, 1⟩ true).toOption.map (fun G => (
     some (0, false) := by decide +kernel
 -- ... while the complex 'right' form with sine = 0 (covered by the statement for every phase) has G₁₁ = -0.0
 example : (assemble true false 1 0 1).negZero11 = true := by decide +kernel
+
+/-- the executable test `realExactB` (used by the driver's `c11.hypotheses`) decides the exact regime of the real / complex
+decision exactly -/
+theorem real_exact_test_decides (tol : Rat) (a b : GQ) : realExactB tol a b = true ↔ RealExact tol a b :=
+  realExactB_iff
+
+/-- **pairs with a real ratio** (`Im(a conj b) = 0`: real pairs, purely imaginary pairs, any common phase factor) need no
+hypothesis on the real / complex decision: the relative phase is exactly `±1`, the standard rotation is chosen, and the
+statement of `givens_matrix_elements_sound` holds with the two entry hypotheses alone.  (Before the repair 7be94873 the
+code chose the complex form for purely imaginary pairs and — the defect — the real form for tiny entries with a
+non-real ratio.) -/
+theorem givens_matrix_elements_sound_real_ratio (tol : Rat) (htol : 0 < tol) (a b : GQ) (right : Bool) (G : G2)
+    (hexa : small tol a = true → a = 0) (hexb : small tol b = true → b = 0)
+    (hab : a.im * b.re = a.re * b.im)
+    (h : givensElems tol a b right = .ok G) :
+    G.Unitary ∧ G.Zeroes right a b ∧
+    ∀ s c e, params G = .ok (s, c, e) → (rotationOf s c e).SameEntries G :=
+  givens_matrix_elements_sound tol htol a b right G hexa hexb (realExact_of_real_ratio htol hexa hexb hab) h
+
+-- non-vacuity: a purely imaginary pair
+example : (⟨0, 3/5⟩ : GQ).im * (⟨0, -4/5⟩ : GQ).re = (⟨0, 3/5⟩ : GQ).re * (⟨0, -4/5⟩ : GQ).im ∧
+    (givensElems (1/100000000) ⟨0, 3/5⟩ ⟨0, -4/5⟩ false).toOption.isSome = true := by decide +kernel
+
+/-- why the repaired test looks at the phase: the standard ("real") rotation form assembled with a non-real phase is not
+unitary — `phase = i`, `cos = 3/5`, `sin = 4/5` (what the code before 7be94873 produced for tiny entries whose imaginary
+parts were below the tolerance although their ratio was not real) -/
+theorem test_real_form_needs_real_phase : ¬ (assemble false true (3/5) (4/5) ⟨0, 1⟩).Unitary := by
+  unfold G2.Unitary; decide +kernel
+
+/-- **`double_givens_rotate(W, G, i, j, which='col')` preserves the first canonical constraint.**  For every `m × 2N` matrix
+and every column-isometric `G` (in particular every `G` returned by `givens_matrix_elements` in the exact regime,
+`givensElems_colIsometry`) the rotation of columns `i, j` by `G` and of columns `N+i, N+j` by `conj G` leaves all inner
+products of rows unchanged: `W W† = W₁W₁† + W₂W₂†` is invariant under each double rotation of
+`fermionic_gaussian_decomposition` (a step of the open Gaussian reconstruction statement). -/
+theorem double_rotation_preserves_row_gram (M : Mat) (m N : Nat) (hM : Rect M m (2 * N)) (G : G2) (hG : G.ColIsometry)
+    (i j : Nat) (hij : i ≠ j) (hi : i < N) (hj : j < N) :
+    Rect (doubleRotateCols M G N i j) m (2 * N) ∧ SameGram M (doubleRotateCols M G N i j) m (2 * N) :=
+  doubleRotateCols_gram hM hG i j hij hi hj
+
+/-- **The column sweep of `fermionic_gaussian_decomposition` preserves `W W†`.**  For every `m × 2N` matrix, whenever the
+Model's sweep (particle-hole swaps of columns `N-1, 2N-1` and double Givens rotations, `gaussSweep`) returns and the run
+stays in the exact regime (`GaussSweepExact`: every entry compared with the tolerance is exactly zero or not below it,
+the real / complex decisions are exact), the matrix after the sweep has the same inner products of rows as the input: the
+first canonical constraint `W₁W₁† + W₂W₂† = 1` is an invariant of the whole sweep, singular left blocks (F11) included.
+(Part of the open reconstruction statement; the second constraint `W₁W₂ᵀ + W₂W₁ᵀ = 0` is not covered.) -/
+theorem gaussian_sweep_preserves_row_gram (tol : Rat) (htol : 0 < tol) (m n : Nat) (hn : 1 ≤ n) (ks : List Nat)
+    (M : Mat) (ls : List (List GOp)) (M' : Mat) (h : gaussSweep tol n ks M = .ok (ls, M'))
+    (hex : GaussSweepExact tol n ks M) (hR : Rect M m (2 * n)) :
+    Rect M' m (2 * n) ∧ SameGram M M' m (2 * n) :=
+  gaussSweep_gram tol htol m n hn ks M ls M' h hex hR
+
+/-- the particle-hole step alone (`swap_columns(W, N-1, 2N-1)`) preserves the inner products of rows -/
+theorem particle_hole_swap_preserves_row_gram (M : Mat) (m n : Nat) (hn : 1 ≤ n) (hR : Rect M m (2 * n)) :
+    Rect (swapCols M (n - 1) (2 * n - 1)) m (2 * n) ∧ SameGram M (swapCols M (n - 1) (2 * n - 1)) m (2 * n) :=
+  swapCols_gram hR (n - 1) (2 * n - 1) (by omega) (by omega) (by omega)
+
+-- non-vacuity: the F11 witness [[0,0,0,1],[0,0,1,0]] (N = 2): the sweep returns and its rows are orthonormal; the
+-- exact-regime predicate is inhabited
+example : (gaussSweep (1/100000000) 2 [0, 1, 2] [[0, 0, 0, 1], [0, 0, 1, 0]]).toOption.isSome = true ∧
+    orthonormalB [[0, 0, 0, 1], [0, 0, 1, 0]] 2 4 = true := by decide +kernel
+example (M : Mat) : GaussSweepExact (1/100000000) 2 [] M := trivial
 
 /-- signed zero matters: with `a = 0`, complex `b` and `which='right'` the Model yields `G₁₁ = -0.0` and
 `e^{iφ} = -1`; with `+0.0` (`e^{iφ} = 1`) the rebuilt rotation would differ from `G` in entry `[0,1]` -/
